@@ -54,6 +54,10 @@ const TEMPLATES: &[Tpl] = &[
     Tpl { name: "let_before_result", tail: false, decl: "fn f(n: int, acc: int) -> int { let r = if(n <= 0, acc, f(n - 1, acc + n)); r }", call: "f({n}, 0)", ret: "int", result: tri, frames: Some(1) },
     Tpl { name: "inside_lambda", tail: false, decl: "fn f(n: int, acc: int) -> int { if(n <= 0, acc, ((x: int) -> { f(x, acc + n) })(n - 1)) }", call: "f({n}, 0)", ret: "int", result: tri, frames: Some(2) },
     Tpl { name: "captured_in_inner_fn", tail: false, decl: "fn f(n: int, acc: int) -> int { fn inner(x: int) -> int { f(x, acc + n) } if(n <= 0, acc, inner(n - 1)) }", call: "f({n}, 0)", ret: "int", result: tri, frames: Some(2) },
+    // the handled argument of an error handler is not a tail position: the handler must still run
+    Tpl { name: "handled_argument_if_error2", tail: false, decl: "fn f(n: int) -> int { if(n <= 0, error(\"bottom\"), if_error(f(n - 1), n)) }", call: "if_error(f({n}), -7)", ret: "int", result: |n| if n <= 0 { d_i64(-7) } else { d_i64(1) }, frames: Some(1) },
+    Tpl { name: "handled_argument_if_error3", tail: false, decl: "fn f(n: int) -> int { if(n <= 0, error(\"bottom\"), if_error(f(n - 1), \"bott\", n)) }", call: "if_error(f({n}), -7)", ret: "int", result: |n| if n <= 0 { d_i64(-7) } else { d_i64(1) }, frames: Some(1) },
+    Tpl { name: "handled_argument_is_error", tail: false, decl: "fn f(n: int) -> bool { if(n <= 0, error(\"bottom\"), is_error(f(n - 1))) }", call: "if_error(f({n}), false)", ret: "bool", result: |n| d_bool(n == 1), frames: Some(1) },
     Tpl { name: "mutual_recursion", tail: false, decl: "forward fn g(n: int, acc: int) -> int;\nfn f(n: int, acc: int) -> int { if(n <= 0, acc, g(n - 1, acc + n)) }\nfn g(n: int, acc: int) -> int { if(n <= 0, acc, f(n - 1, acc + n)) }", call: "f({n}, 0)", ret: "int", result: tri, frames: Some(1) },
 ];
 
